@@ -348,7 +348,7 @@ def run_ops(ops, strict=True):
             out.append(op[1])
         else:
             _k, off, ln = op
-            if strict and (off < 1 or off > len(out)):
+            if off < 1 or off > len(out):
                 raise FormatError('block offset %d outside the %d bytes produced' % (off, len(out)))
             for _ in range(ln):
                 out.append(out[-off])
